@@ -295,4 +295,3 @@ package http1
 //@   assert before decConnsCount: dialDone && dialFailed && slotBack == 0
 //@   assert before releaseConn: dialDone && !dialFailed && !dcDelivered
 //@   top-ensures dialDone && (dialFailed ==> slotBack == 1) && (!dialFailed ==> slotBack == 0 && (dcDelivered || dcReleased))
-
